@@ -51,7 +51,8 @@ use crate::{
 pub fn get_by_schema<'de, Input: JsonInput<'de>>(json: Input, mut schema: Value) -> Result<Value> {
     let slice = json.to_u8_slice();
     let reader = Read::new(slice, false);
-    let mut parser = Parser::new(reader);
+    let mut parser =
+        Parser::new(reader).with_config(crate::config::DeserializeCfg::from_features());
     parser.get_by_schema(&mut schema)?;
 
     // validate the utf-8 if slice
